@@ -54,6 +54,11 @@ CORPUS: Dict[str, str] = {
     "lists": IMPORTS + "items = [1, 2, 3]\nitems.append(4)\nn = len(items)\nsq = [i * i for i in range(4)]\nwhile True:\n    items.append(n)\n    mon.write(items[-1])\n    mon.write(len(sq))\n",
     "devices": IMPORTS + "led = Led(13)\nrgb = RGBLed(9, 10, 11)\nsv = Servo(5)\nm = DCMotor(2, 3, 6)\nbz = Buzzer(8)\npot = Potentiometer(\"A1\")\nwhile True:\n    led.toggle()\n    rgb.fade(1, 2, 3, 100, 4)\n    sv.write(pot.read() / 6)\n    m.ramp(0.5, 100)\n    bz.melody(\"siren\")\n    sleep(10)\n",
     "nested": IMPORTS + "a = analog_read(\"A0\")\nwhile True:\n    if a > 1:\n        for i in range(2):\n            inner = i\n            if inner > 0:\n                deep = inner\n                other = 3\n    else:\n        alt = 2\n    mon.write(a)\n",
+    "shadow_builtins": IMPORTS + "def abs(v):\n    return v\ndef len(v):\n    return 3\ndef max(p, q):\n    return p\ndef min(p, q):\n    return q\ndef int(v):\n    return v\na = analog_read(\"A0\")\nmon.write(abs(a) + len(a) + max(a, 1) + min(a, 2) + int(a))\n",
+    "range_limits": IMPORTS + "a = analog_read(\"A0\")\nitems = [a, 2]\nn = a\nfor i in range(abs(a - 5)):\n    mon.write(i)\nfor j in range(len(items)):\n    items.append(j)\nfor k in range(min(a, 3)):\n    k += 1\n    mon.write(k)\nfor m in range(n):\n    n = n - 1\nwhile True:\n    for step in range(max(a, 2)):\n        step = step * 2\n        mon.write(step)\n",
+    "list_returns": IMPORTS + "def ramp(fine):\n    if fine > 2:\n        return [0.25, 0.5, 0.75]\n    return [1, 2, 3]\ndef names(k):\n    if k > 1:\n        return [1, 2]\n    if k > 0:\n        return [1.5]\n    return [True]\nr = ramp(1)\nmon.write(r[0])\nq = names(2)\nmon.write(q[0])\n",
+    "mixed_returns": IMPORTS + "def pick(v):\n    if v > 3:\n        return 1\n    if v > 2:\n        return 2.5\n    if v > 1:\n        return True\n    return 0\ndef lab(v):\n    if v:\n        return \"a\"\n    return \"b\"\nmon.write(pick(2))\nmon.write(lab(1))\n",
+    "helper_globals": IMPORTS + "def seta():\n    global ga, gb, gc\n    ga = 1\n    gb = 2.5\n    gc = \"s\"\ndef setb():\n    global gd, ga\n    gd = 4\n    ga = 5\nseta()\nsetb()\nzz, yy = 1, 2\nzz, xx = 3, 4\nwhile True:\n    mon.write(ga)\n    gd = gd + 1\n",
     "globals_only": IMPORTS + "count = 0\nname = \"x\"\nratio = 0.5\nflag = True\n",
     "empty": IMPORTS,
 }
